@@ -165,6 +165,44 @@ def files_leg(out, recs, n):
     return dict(cases=cases, results=results, bad=bad, pairs=len(pairs), coq_failures=fails)
 
 
+def cluster_leg(out, n):
+    """cluster_events_by_job_id (the grouping behind pv2puml -group-by-job) on random interleavings of the events of
+    several jobs vs V.Pv.Files.cluster in coqc, plus the property itself: the clusters do not depend on the interleaving"""
+    import random
+    common.setup_impl_path()
+    import tel2puml.events  # noqa: F401
+    from tel2puml.pv_to_puml.data_ingestion import cluster_events_by_job_id
+    rnd = random.Random(out.seed * 30011 + 303)
+    rows, bad = [], []
+    for _ in range(n):
+        njobs = rnd.choice([1, 2, 3, 5])
+        evs, eid = [], 1
+        for j in range(1, njobs + 1):
+            for _k in range(rnd.choice([1, 2, 3, 6])):
+                evs.append((j, eid))
+                eid += 1
+        if rnd.random() < 0.7:
+            rnd.shuffle(evs)
+        got = cluster_events_by_job_id(dict(jobId=f"j{j}", eventId=f"e{e}") for j, e in evs)
+        impl = [(int(k[1:]), [int(x["eventId"][1:]) for x in v]) for k, v in got.items()]
+        ref = sorted((j, sorted(e for jj, e in evs if jj == j)) for j in {j for j, _ in evs})
+        if sorted((j, sorted(l)) for j, l in impl) != ref:
+            bad.append(dict(kind="clustering by job id depends on how the events are interleaved", events=evs, clusters=impl))
+        rows.append("(" + coq_list([f"({j}%positive, {e}%nat)" for j, e in evs]) + ", "
+                    + coq_list([f"({j}%positive, {coq_list([f'{e}%nat' for e in l])})" for j, l in impl]) + ")")
+    body = ";\n ".join(rows)
+    ok, o = common.coq_eval("C03cluster", f"""From Coq Require Import List PArith Bool Arith. Import ListNotations.
+From V Require Import Pv.Files.
+Definition cases : list (list (positive * nat) * list (positive * list nat)) := [
+ {body}].
+Fixpoint leqb {{A}} (f : A -> A -> bool) (a b : list A) := match a, b with [], [] => true | x :: a', y :: b' => f x y && leqb f a' b' | _, _ => false end.
+Definition idx {{A}} (f : A -> bool) (l : list A) : list nat := map fst (filter (fun p => negb (f (snd p))) (combine (seq 0 (length l)) l)).
+Eval vm_compute in (1%nat, idx (fun c => leqb (fun x y => Pos.eqb (fst x) (fst y) && leqb Nat.eqb (snd x) (snd y)) (cluster nat (fst c)) (snd c)) cases).
+""")
+    l = common.parse_nat_list(o, "1") if ok else None
+    return dict(cases=n, bad=bad, disagreements=l if l is not None else [], coq_failure=None if l is not None else o[-500:])
+
+
 def run(out, explore=0):
     okp = common.proof_obligations(out, "C03")
     quick = out.tier == "quick"
@@ -246,6 +284,13 @@ def run(out, explore=0):
                                baseline_output=fl["results"][k]["F0"]["text"], output=fl["results"][k][name]["text"]))
         if fl["coq_failures"] and not out.violations:
             out.violation({"kind": "certificate-evaluation-failed", "leg": "file presentations", "n": fl["coq_failures"]}, no_failing_input=True)
+    cl = cluster_leg(out, 300 if quick else 5000) if okp else None
+    if cl:
+        for b in cl["bad"][:2]:
+            out.violation(b)
+        if (cl["disagreements"] or cl["coq_failure"]) and not out.violations:
+            out.violation({"kind": "correspondence-broken", "relation": "cluster_events_by_job_id == V.Pv.Files.cluster (order of jobs and of events included)",
+                           "disagreements": cl["disagreements"][:5], "coq_failure": cl["coq_failure"]}, no_failing_input=True)
     sample = next((it for it in items if it.get("text") and it["variant"] == 5), items[0])
     out.coverage.update({
         "programs": sum(1 for it in items if it.get("tokens")), "disagreements_checked": sum(kinds.values()),
@@ -254,7 +299,8 @@ def run(out, explore=0):
         "exhaustive": False, "definitions": len(recs), "learner_runs": len(items), "variants": {v: list(L.VARIANTS[v]) + list(L.VARIANT_ENV[v]) for v in variants},
         "failure_kinds": kinds, "failing_keys": failing, "pairs_compared": len(other),
         "ingestion_leg": None if not leg else dict(cases=leg["cases"], presentation_dependent=len(leg["bad"]), model_disagreements=len(leg["disagreements"])),
-        "traces_validated_against_impl": leg["cases"] if leg else 0,
+        "traces_validated_against_impl": (leg["cases"] if leg else 0) + (cl["cases"] if cl else 0),
+        "cluster_leg": None if not cl else dict(cases=cl["cases"], interleaving_dependent=len(cl["bad"]), model_disagreements=len(cl["disagreements"])),
         "file_presentation_leg": None if not fl else dict(definitions=len(fl["cases"]), cli_runs=4 * len(fl["cases"]), rejected=len(fl["bad"]),
                                                           pairs_compared_in_coq=fl["pairs"],
                                                           layouts="F0 array file per job; F1 files listed shuffled + events shuffled inside; "
